@@ -47,7 +47,11 @@
      "DirChildrenCappedByLimit" without a corpus, search.dirChildren asks the index for at most
                              q.Limit children of a directory (the query's RESULT limit): topFileCount /
                              contains / recursiveContains then see only the first Limit children (in ref
-                             order).  The cap itself travels in the deviation set as "cap<n>". *)
+                             order).  The cap itself travels in the deviation set as "cap<n>".
+     "TypedSourceRepeats"    Corpus.EnumeratePermanodesByNodeTypes walks the set of every listed node type
+                             in turn without remembering what it has already sent: a permanode that has had
+                             two of the listed types (or a type listed twice by an "or") is a candidate
+                             twice and, if it matches, is returned twice. *)
 EXTENDS Integers, Sequences, FiniteSets, SequencesExt, Json, TLC
 
 CONSTANTS WorldFile,      \* name of the world JSON, relative to the directory TLC runs in
@@ -56,7 +60,7 @@ CONSTANTS WorldFile,      \* name of the world JSON, relative to the directory T
           Part, Parts      \* leg S is split over several TLC processes: this one takes the seed atoms j with j % Parts = Part
 
 AllDevs == {"OrAppendsTypes", "SortedSourceDropsSome", "RecursiveWholeDir", "DeleteDateIsModtime", "ContentClaimTimeIgnored",
-            "DirChildrenCappedByLimit"}
+            "DirChildrenCappedByLimit", "TypedSourceRepeats"}
 CapToks == <<"cap1", "cap2", "cap3", "cap4", "cap5">>
 ASSUME Deviations \subseteq AllDevs \cup ToSet(CapToks)
 
@@ -237,19 +241,24 @@ M(D, tr, i, b) == LET n == tr[i] IN
 Matches(D, tr) == {b \in Ids : M(D, tr, 1, b)}
 
 (* ---------------- the planner ---------------- *)
-RECURSIVE OnlyPn(_, _), PnTypes(_, _, _), AtMostOne(_, _), ByWhole(_, _)
+RECURSIVE OnlyPn(_, _), TypesSeq(_, _, _), AtMostOne(_, _), ByWhole(_, _)
 (* onlyMatchesPermanode *)
 OnlyPn(tr, i) == LET n == tr[i] IN
   \/ n.k = "pn" \/ (n.k = "type" /\ n.s = "permanode")
   \/ (n.k = "and" /\ (OnlyPn(tr, n.a) \/ OnlyPn(tr, n.b)))
-(* matchesPermanodeTypes: {} = "might match other things" *)
-PnTypes(D, tr, i) == LET n == tr[i] IN
-  CASE n.k = "pn" /\ n.s = "camliNodeType" /\ n.v # 0 -> {n.v}
-    [] n.k = "and" -> (IF PnTypes(D, tr, n.a) # {} THEN PnTypes(D, tr, n.a) ELSE PnTypes(D, tr, n.b))
-    [] n.k = "or"  -> (IF "OrAppendsTypes" \in D THEN PnTypes(D, tr, n.a) \cup PnTypes(D, tr, n.b)
-                       ELSE IF PnTypes(D, tr, n.a) = {} \/ PnTypes(D, tr, n.b) = {} THEN {}
-                       ELSE PnTypes(D, tr, n.a) \cup PnTypes(D, tr, n.b))
-    [] OTHER -> {}
+(* matchesPermanodeTypes: the list of node types; <<>> = "might match other things" *)
+TypesSeq(D, tr, i) == LET n == tr[i] IN
+  CASE n.k = "pn" /\ n.s = "camliNodeType" /\ n.v # 0 -> <<n.v>>
+    [] n.k = "and" -> (IF TypesSeq(D, tr, n.a) # <<>> THEN TypesSeq(D, tr, n.a) ELSE TypesSeq(D, tr, n.b))
+    [] n.k = "or"  -> (IF "OrAppendsTypes" \in D THEN TypesSeq(D, tr, n.a) \o TypesSeq(D, tr, n.b)      \* the code: append(sa, sb...)
+                       ELSE IF TypesSeq(D, tr, n.a) = <<>> \/ TypesSeq(D, tr, n.b) = <<>> THEN <<>>
+                       ELSE TypesSeq(D, tr, n.a) \o TypesSeq(D, tr, n.b))
+    [] OTHER -> <<>>
+PnTypes(D, tr, i) == ToSet(TypesSeq(D, tr, i))
+(* how many times the typed source sends permanode p: once (intended), or once per listed type it ever had *)
+Mult(D, tr, p) == IF "TypedSourceRepeats" \in D
+                  THEN LET ts == TypesSeq(D, tr, 1) IN Cardinality({j \in 1..Len(ts) : ts[j] \in EverNodeType(p)})
+                  ELSE 1
 (* matchesAtMostOneBlob: the prefix id of a complete blobref, 0 = none *)
 AtMostOne(tr, i) == LET n == tr[i] IN
   IF n.k = "prefix" /\ PfxExact[n.p] THEN n.p
@@ -315,6 +324,16 @@ ValidOut(D, out, C, s, limit) ==
   /\ Len(out) = (IF limit = 0 \/ Cardinality(C) < limit THEN Cardinality(C) ELSE limit)   \* nothing missed
   /\ \A i, j \in 1..Len(out) : i < j => ~StrictBefore(D, s, out[j], out[i])      \* in the requested order
   /\ \A x \in C \ O : \A y \in O : ~StrictBefore(D, s, x, y)                     \* the FIRST limit of it
+(* the same when the source may send candidate x up to mult[x] times (deviation TypedSourceRepeats) *)
+ValidOutRepeats(D, out, C, mult, s, limit) ==
+  LET O == ToSet(out)
+      total == Cardinality({pj \in C \X (1..Len(out) + 1) : pj[2] <= mult[pj[1]]}) IN
+  /\ O \subseteq C
+  /\ \A x \in O : Cardinality({j \in 1..Len(out) : out[j] = x}) <= mult[x]
+  /\ (limit = 0 => \A x \in C : Cardinality({j \in 1..Len(out) : out[j] = x}) = mult[x])
+  /\ (limit # 0 => Len(out) = (IF total < limit THEN total ELSE limit) \/ Len(out) = limit)
+  /\ \A i, j \in 1..Len(out) : i < j => ~StrictBefore(D, s, out[j], out[i])
+  /\ \A x \in C \ O : \A y \in O : ~StrictBefore(D, s, x, y)
 OrdSort(s) == IF s = "unspecified" THEN "unsorted" ELSE s
 
 (* ---------------- leg S: every tree of the bounded grammar ---------------- *)
@@ -356,6 +375,10 @@ Live == Len(tree) > 0 /\ sort \notin {"seed", "seed2"}
 (* the source the (possibly deviating) planner enumerates contains every blob that matches *)
 SourceCoversMatches ==
   Live => Matches({}, tree) \subseteq SourceSet(Deviations, SourceName(Deviations, tree, sort, "build"), tree)
+(* the typed permanode source sends every candidate once *)
+TypedSourceOnce ==
+  (Live /\ SourceName(Deviations, tree, sort, "build") = "corpus_permanode_types") =>
+     \A p \in Matches({}, tree) : Mult(Deviations, tree, p) <= 1
 (* the (possibly deviating) matcher implements the documented meaning *)
 MatcherAgrees == (Live /\ Deviations \cap {"RecursiveWholeDir", "DeleteDateIsModtime", "ContentClaimTimeIgnored", "DirChildrenCappedByLimit"} # {}) => Matches(Deviations, tree) = Matches({}, tree)
 (* Order / Limit produce a result the validation relation accepts, and it is the only one when keys are unique *)
